@@ -78,6 +78,26 @@ def dist_to_matrix(D):
     return X
 
 
+SCALES = (1.0, 1e-3, 1e-6, 1e-9, 1e3, 1e6)
+
+
+def scale_ladder(fn, J):
+    """the solver's counterexample fixes the SHAPE of the input (directions, ratios); a fault whose effect depends on the absolute scale (an
+    absolute epsilon) shows on the real stack only at the right magnitude, which an exact-arithmetic model has no reason to pick.  Run fn on
+    the counterexample and on a short ladder of rescalings of it (float64, so 1e-9 .. 1e6 is far from under/overflow); fn returns a dict
+    with 'reproduced'.  The first reproducing result is returned with the scale recorded."""
+    first = None
+    for sc in SCALES:
+        r = fn(np.asarray(J, dtype=float) * sc)
+        if first is None:
+            first = r
+        if r.get("reproduced"):
+            if sc != 1.0:
+                r = dict(r, input_scale=sc, found_by="the solver's counterexample rescaled by a power of 1000")
+            return r
+    return first
+
+
 def t64(x):
     return torch.tensor(np.asarray(x, dtype=float), dtype=torch.float64)
 
